@@ -16,11 +16,25 @@ import (
 const maxInlineDepth = 12
 
 func (f *Frame) call(ins ssa.Value, cc *ssa.CallCommon, pc string, st *State) string {
-	vc := f.vc
 	var args []Val
 	for _, a := range cc.Args {
 		args = append(args, f.val(a))
 	}
+	var fv Val
+	if _, ok := cc.Value.(*ssa.Builtin); !ok && (cc.IsInvoke() || cc.StaticCallee() == nil) {
+		fv = f.val(cc.Value)
+	}
+	var bindings []Val
+	if mc, ok := cc.Value.(*ssa.MakeClosure); ok {
+		for _, b := range mc.Bindings {
+			bindings = append(bindings, f.val(b))
+		}
+	}
+	return f.callPre(ins, cc, args, fv, bindings, pc, st)
+}
+
+// callPre performs a call whose operands have already been evaluated (also used for deferred calls).
+func (f *Frame) callPre(ins ssa.Value, cc *ssa.CallCommon, args []Val, fv Val, bindings []Val, pc string, st *State) string {
 	setResult := func(r Val) {
 		if ins != nil {
 			f.vals[ins] = r
@@ -32,24 +46,18 @@ func (f *Frame) call(ins ssa.Value, cc *ssa.CallCommon, pc string, st *State) st
 		return pc
 	}
 	if cc.IsInvoke() {
-		r, npc := f.invoke(cc, args, pc, st, ins)
+		r, npc := f.invoke(cc, fv, args, pc, st, ins)
 		setResult(r)
 		return npc
 	}
 	if callee := cc.StaticCallee(); callee != nil {
-		if mc, ok := cc.Value.(*ssa.MakeClosure); ok {
-			// direct call of a closure literal: bindings become leading "free variable" values
-			_ = mc
-		}
-		r, npc := f.callStatic(callee, cc.Value, args, pc, st, ins)
+		r, npc := f.callStatic(callee, bindings, args, pc, st, ins)
 		setResult(r)
 		return npc
 	}
 	// dynamic call through a function value
-	fv := f.val(cc.Value)
 	r, npc := f.callDynamic(fv, cc, args, pc, st, ins)
 	setResult(r)
-	_ = vc
 	return npc
 }
 
@@ -112,7 +120,13 @@ func (f *Frame) builtin(b *ssa.Builtin, cc *ssa.CallCommon, args []Val, pc strin
 	case "ssa:deferstack":
 		return Val{T: "0", Typ: types.Typ[types.Int]}
 	case "recover":
-		unsup("recover() outside a supported defer pattern in %s", shortFn(f.fn))
+		// effective only when called directly by a deferred function while its parent unwinds a panic
+		if f.parent != nil && f.parent.unwinding != nil {
+			u := f.parent.unwinding
+			u.recovered = or(u.recovered, pc)
+			return Val{T: vc.define("recovered", "Iface", fmt.Sprintf("(ite %s %s nil_iface)", u.active, u.val)), Typ: types.NewInterfaceType(nil, nil)}
+		}
+		return Val{T: "nil_iface", Typ: types.NewInterfaceType(nil, nil)}
 	case "print", "println":
 		return Val{}
 	case "min", "max":
@@ -159,7 +173,7 @@ func (f *Frame) appendBuiltin(cc *ssa.CallCommon, args []Val, pc string, st *Sta
 	nid := f.newRef(st, "append")
 	ncap := vc.freshConst("app.cap", "Int")
 	vc.assert(fmt.Sprintf("(>= %s %s)", ncap, newLen))
-	vc.assert(fmt.Sprintf("(<= %s 4611686018427387904)", ncap))
+	vc.assert(fmt.Sprintf("(<= (* %s %d) 281474976710656)", ncap, elemSize(et)))
 	srcArr := vc.define("app.src", "(Array Int "+es+")", fmt.Sprintf("(select %s (arr %s))", E, s.T))
 	res := vc.define("app.res", "Slice", fmt.Sprintf("(ite %s (mk_slice (arr %s) (off %s) %s (cap %s)) (mk_slice %s 0 %s %s))", fits, s.T, s.T, newLen, s.T, nid, newLen, ncap))
 	// new content of the target array
@@ -222,16 +236,9 @@ func (f *Frame) inStack(fn *ssa.Function) bool {
 	return false
 }
 
-func (f *Frame) callStatic(callee *ssa.Function, fnVal ssa.Value, args []Val, pc string, st *State, ins ssa.Value) (Val, string) {
+func (f *Frame) callStatic(callee *ssa.Function, bindings []Val, args []Val, pc string, st *State, ins ssa.Value) (Val, string) {
 	vc := f.vc
 	prog := vc.prog
-	// closure literal called directly: prepend bindings as free variables
-	var bindings []Val
-	if mc, ok := fnVal.(*ssa.MakeClosure); ok {
-		for _, b := range mc.Bindings {
-			bindings = append(bindings, f.val(b))
-		}
-	}
 	name := callee.String()
 	if h, ok := intrinsics[name]; ok {
 		r, npc := h(f, callee, args, pc, st, ins)
@@ -292,6 +299,7 @@ func (f *Frame) inline(callee *ssa.Function, con *Contract, args, bindings []Val
 	order := topoOrder(callee)
 	in := map[*ssa.BasicBlock][]edge{callee.Blocks[0]: {{nil, pc, st}}}
 	sub.run(order, in, nil, nil)
+	sub.unwindPanics()
 	// merge normal exits
 	var conds []string
 	var states []*State
@@ -671,9 +679,8 @@ func (f *Frame) havocCall(callee *ssa.Function, args []Val, pc string, st *State
 // ---------------------------------------------------------------------------------------------
 // interface method calls and dynamic calls: closed-world dispatch
 
-func (f *Frame) invoke(cc *ssa.CallCommon, args []Val, pc string, st *State, ins ssa.Value) (Val, string) {
+func (f *Frame) invoke(cc *ssa.CallCommon, recv Val, args []Val, pc string, st *State, ins ssa.Value) (Val, string) {
 	vc := f.vc
-	recv := f.val(cc.Value)
 	// interface-method contract?
 	// closed world: all concrete types boxed anywhere in the module that implement the interface
 	iface := types.Unalias(cc.Value.Type()).Underlying().(*types.Interface)
@@ -754,6 +761,31 @@ func (f *Frame) callDynamic(fv Val, cc *ssa.CallCommon, args []Val, pc string, s
 		return f.callStatic(fv.Fn, nil, args, pc, st, ins)
 	}
 	sig := cc.Signature()
+	if f.isPureCallback(fv) {
+		var as []string
+		for _, a := range args {
+			as = append(as, f.termOf(a))
+		}
+		res := sig.Results()
+		mk := func(i int) Val {
+			t := res.At(i).Type()
+			n := vc.define("cbres", vc.sortOf(t), vc.pureApply(sig, i, fv.T, as))
+			vc.assert(vc.typed(n, t, 2))
+			vc.assert(vc.refsBelow(n, t, st.alloc, 2))
+			return Val{T: n, Typ: t}
+		}
+		switch res.Len() {
+		case 0:
+			return Val{}, pc
+		case 1:
+			return mk(0), pc
+		}
+		var vs []Val
+		for i := 0; i < res.Len(); i++ {
+			vs = append(vs, mk(i))
+		}
+		return Val{Tuple: vs, Typ: res}, pc
+	}
 	cands := vc.prog.funcValueCandidates(sig)
 	if len(cands) == 0 {
 		unsup("dynamic call in %s: no candidate functions of type %s", shortFn(f.fn), sig)
@@ -811,4 +843,20 @@ func (e *Env) ghostDef(g GhostDecl) string {
 		unsup("ghost %s: defining predicate must be a ;@definitional prelude predicate: %s", g.Name, g.Src)
 	}
 	return e.evalBool(g.Def)
+}
+
+// isPureCallback: the function value is a parameter that the contract of the function under
+// verification (or of an inlined callee on the stack) declares as a pure callback.
+func (f *Frame) isPureCallback(fv Val) bool {
+	for fr := f; fr != nil; fr = fr.parent {
+		if fr.con == nil {
+			continue
+		}
+		for _, name := range fr.con.PureCallbacks {
+			if pv, ok := fr.params[name]; ok && pv.T == fv.T {
+				return true
+			}
+		}
+	}
+	return false
 }
